@@ -101,6 +101,10 @@ def model (toks : List String) : String :=
         match callFn "tfu" 0 [x] with
         | .val t => pure (showOutcome false (callFn "ttu" 0 [t]))
         | o => pure (showOutcome false o)).getD "bad-op"
+  | "rtf" :: rest =>
+    -- Float overload on x + q/4 (exactly representable): Modf splits it into x' and a fraction of the same sign,
+    -- time.Unix(sec, nsec) normalises, time_to_unix floors: the result is x
+    (do let (x, _) ← parseV rest; pure (showOutcome false (.val x))).getD "bad-op"
   | "itos" :: rest =>
     (do let (x, _) ← parseV rest
         match callFn "string" 0 [x] with
@@ -177,6 +181,11 @@ def judge (toks : List String) (out : List String) : String :=
      | none => "bad unparsable-op")
   | "rt" :: rest =>
     -- time_to_unix(time_from_unix(x)) = x
+    (match parseV rest with
+     | some (x, _) => meets (.exact x) .int out
+     | none => "bad unparsable-op")
+  | "rtf" :: rest =>
+    -- time_to_unix(time_from_unix(x + q/4)) = x: the unix timestamp of the second the instant lies in
     (match parseV rest with
      | some (x, _) => meets (.exact x) .int out
      | none => "bad unparsable-op")
